@@ -26,6 +26,11 @@ def check(ctx):
             ("sv", "module m; wire logic; endmodule\n"), ("lib", "library l \"*.v\";\n"), ("svi", "module a; endmodule garbage ("),
             ("pp", "`define A(x) x+x\n`A(1) `A(`A(2))\n`ifdef A y `endif\n"), ("pp", "`define R `R\n`R\n"),
             ("sv", "`define W 8\nmodule m; wire [`W-1:0] w; endmodule\n")]
+    # calls that differ in their ARGUMENTS (include paths, caller's defines) while naming the same include / macro
+    inc = '`include "cfg.svh"\nw = `WIDTH;\n'
+    jobs += [("pp:da", inc), ("pp:db", inc), ("sv:da", "module m;\n" + inc + "endmodule\n"), ("sv:db", "module m;\n" + inc + "endmodule\n"),
+             ("pp:dc", inc), ("pp::PRE=1", "`ifdef PRE\np `PRE\n`endif\n"), ("pp::PRE=2", "`ifdef PRE\np `PRE\n`endif\n"),
+             ("pp", "`ifdef PRE\np\n`else\nq\n`endif\n")]
     jobs += r.sample(pool, 6 if q else 60)
     for _ in range(3 if q else 30):
         g = ppgen.Gen(r, includes=False)
@@ -33,6 +38,8 @@ def check(ctx):
     cases = []
     for n in (2, 4, 16):
         c = Case("t%d" % n)
+        c.add("file", hx("da/cfg.svh"), hx("`define WIDTH 8\n"))
+        c.add("file", hx("db/cfg.svh"), hx("`define WIDTH 16\n"))
         for k, s in jobs:
             c.add("job", k, hx(s))
         c.add("threads", n, 2 if q else 12)
